@@ -21,6 +21,9 @@ Texts == LET T == ndJsonDeserialize(IOEnv.VH_TEXTS) IN [q \in 1..Len(T) |-> T[q]
 Mode  == IOEnv.VH_MODE
 Excl  == IOEnv.VH_EXCL      \* comma-less concatenation of finding ids to exclude, e.g. "F1"
 
+Lemma == IOEnv.VH_LEMMA = "1"    \* also check the spec-level lemma Search(injected) = Search(base)
+\* the AST whose MEANING the rows must have: the base pattern for injection records
+SemAst(c) == IF "base" \in DOMAIN c THEN c.base ELSE c.ast
 Excluded(ast) == Excl = "F1" /\ Excluded_F1(ast)
 
 \* status codes of the harness
@@ -54,17 +57,19 @@ Step ==
       IF c.st # "ok"
       THEN /\ ncerr' = ncerr + 1 /\ UNCHANGED <<nok, nrej, nexcl, ncells, npos>>
            /\ Emit("CERR", [id |-> c.id, pat |-> c.pat, ek |-> c.ek])
-      ELSE IF Excluded(c.ast)
+      ELSE IF Excluded(SemAst(c))
       THEN /\ nexcl' = nexcl + 1 /\ UNCHANGED <<nok, nrej, ncerr, ncells, npos>>
-      ELSE LET exp == TLCEval(ExpectedRows(c.ast, c.ng))
+      ELSE LET exp == TLCEval(ExpectedRows(SemAst(c), c.ng))
                log == TLCEval(LoggedRows(c))
            IN /\ ncells' = ncells + Cardinality(exp)
               /\ npos' = npos + (IF exp # {} THEN 1 ELSE 0)
               /\ UNCHANGED <<nexcl, ncerr>>
+              /\ (Lemma /\ "base" \in DOMAIN c /\ ExpectedRows(c.ast, c.ng) # exp
+                    => Emit("LEMMAFAIL", [id |-> c.id, pat |-> c.pat]))
               /\ IF exp = log
                  THEN nok' = nok + 1 /\ UNCHANGED nrej
                  ELSE /\ nrej' = nrej + 1 /\ UNCHANGED nok
-                      /\ Emit("REJECT", [id |-> c.id, pat |-> c.pat, ast |-> c.ast, ng |-> c.ng,
+                      /\ Emit("REJECT", [id |-> c.id, pat |-> c.pat, ast |-> c.ast, base |-> SemAst(c), ng |-> c.ng,
                                               expected_not_logged |-> Pick(exp \ log),
                                               logged_not_expected |-> Pick(log \ exp)])
 
